@@ -5,7 +5,9 @@ import re
 
 from ..common import Check, coq_eval, harness, load_findings
 from ..translate import gen_sites, gen_unpack
+from .. import rqcoq
 from . import c12_corr as CR
+from . import c16_wf
 from . import c12_streams as S
 from . import c12_strings as ST
 from .c12_run import probe
@@ -64,11 +66,47 @@ def bracket_depth(src):
     return best
 
 
+def rq_doc_wf(text):
+    """C16's well-formedness of an RQ document (python mirror of Model/RqWf.v rq_wf_lax, cross-validated by C16 on every
+    run): True / False, or None when the document is not in the normal form the mirror reads"""
+    try:
+        return bool(c16_wf.rq_wf_lax(rqcoq.norm(json.loads(text))))
+    except Exception:
+        return None
+
+
+def rq_operator_names(text):
+    """names of the Operator nodes of an RQ document"""
+    out = []
+
+    def walk(v):
+        if isinstance(v, dict):
+            op = v.get("Operator")
+            if isinstance(op, dict) and isinstance(op.get("name"), str):
+                out.append(op["name"])
+            for x in v.values():
+                walk(x)
+        elif isinstance(v, list):
+            for x in v:
+                walk(x)
+    try:
+        walk(json.loads(text))
+    except ValueError:
+        pass
+    return out
+
+
 # input predicates of the OPEN findings only (the predicates of fixed findings were removed with the fix: nothing can
 # be classified as F7 F15 F29 N1 N2 N5 N6 N7 N8 N9 N10 N11 N12 N13 H1 H2 any more)
 PRED = {
     "non-ascii-source": lambda c: any(ord(ch) > 127 for ch in c["src"]),
-    "mutated-rq-json": lambda c: c["entry"] == "json_rq" and c.get("family", "").startswith("json:") and c.get("family") not in ("json:orig", "json:int:lit"),
+    # C12-N3 as a precondition (c12_rq_lookups_total_under_wf): a structurally mutated RQ that does NOT satisfy rq_wf_lax
+    "mutated-rq-json": lambda c: (c["entry"] == "json_rq" and c.get("family", "").startswith("json:") and c.get("family") not in ("json:orig", "json:int:lit")
+                                  and rq_doc_wf(c["src"]) is not True),
+    # C12-N16: an RQ (from JSON) with an operator whose name does not start with `std.`
+    "rq-operator-without-std-prefix": lambda c: c["entry"] == "json_rq" and any(not n.startswith("std.") for n in rq_operator_names(c["src"])),
+    # C12-N15: the internal tuple helpers of std called from source
+    "tuple-helper-call": lambda c: re.search(r"\b(_eq|_is_null|tuple_every|tuple_map|tuple_zip)\b", c["src"]) is not None,
     "mutated-pl-json": lambda c: c["entry"] == "json_pl" and c.get("family", "").startswith("json:") and c.get("family") not in ("json:orig", "json:int:lit"),
     "deep-or-long": lambda c: True,   # refined by thresholds below
     # C12-H3: at least 10 named arguments whose value opens a parenthesis (`x:(`), nested
